@@ -381,6 +381,37 @@ Problems28(o) ==
   { [kind |-> "log-mismatch", field |-> f, cause |-> Cause28(o, f), vers |-> o.vers, resumed |-> o.resumed,
      second |-> o.second, done |-> o.done] : f \in BadFields28(o) }
 
+-----------------------------------------------------------------------------
+(* C32 - arbitrary peer behaviour.  An observation of harness/cmd/c32: a corruption (kind, record
+   index, position class) applied by the transport to a live handshake, or a byte stream fed to
+   one endpoint; then the transport is closed.  The statement: "never panics and never blocks once
+   the transport is closed; each call returns either a result or an error" - i.e. the outcome of
+   every endpoint is in {done, failed} (the machine's TypeOK / ClosedLeadsToReturned).
+   Two consequences of the machine are judged as well, because the same observations show them:
+   a pure TCP re-segmentation is no corruption at all (the handshake still completes), and
+   (TamperNeverCompletes) bytes altered inside a protected or transcript-covered record, a
+   dropped, duplicated or replaced record never lead to a completed, working connection. *)
+BodyFlip(o) == o.kind = "flip" /\ o.pos \in {3, 4, 5}
+Tamper32(o) ==
+  o.fired /\ o.rtype \in {22, 23}
+  /\ (BodyFlip(o) \/ o.kind \in {"drop", "garbage"} \/ (o.kind = "insert" /\ o.sub = "junk-handshake")
+      \* a duplicate is only noticed if the receiver reads on: certain for handshake-typed records
+      \/ (o.kind = "dup" /\ o.rtype = 22))
+
+Judge32(o) ==
+  LET b == o.obs IN
+  IF b.cpanic \/ b.spanic THEN "panic"
+  ELSE IF b.chang \/ b.shang THEN "blocked-after-close"
+  ELSE IF ~o.log_ok THEN "handshake-log-panic"
+  ELSE IF o.fired /\ o.kind = "split" /\ ~(b.cdone /\ b.sdone /\ b.dataok) THEN "tcp-segmentation-broke-handshake"
+  ELSE IF ~o.fired /\ o.kind # "stream" /\ ~(b.cdone /\ b.sdone /\ b.dataok) THEN "honest-run-failed"
+  ELSE IF Tamper32(o) /\ b.cdone /\ b.sdone /\ b.dataok THEN "tamper-undetected"
+  ELSE "ok"
+
+Facts32(o) ==
+  [kind |-> Judge32(o), fault |-> o.kind, sub |-> o.sub, dir |-> o.dir, idx |-> o.idx, pos |-> o.pos,
+   rtype |-> o.rtype, vers |-> o.vers, suite |-> o.suite, auth |-> o.auth]
+
 (* Judge of one observed connection of an honest or downgrade-tampered run (C24).
    o = [c, s, down, second, obs]; obs as logged by harness/lib/tlsh.Observe.
    Returns "ok" or the kind of violation. *)
